@@ -1867,6 +1867,46 @@ class Interp:
         self.jump(st, fr, t['target'])
         return None
 
+    def late_trait_resolution(self, fr, cal):
+        """A trait-method call inside a generic function (`W::at(..)`, `self - other` in a provided method) cannot be resolved
+        by the compiler before monomorphisation.  Here the frame knows what its type parameters were instantiated with: the
+        parameters are substituted, and the call is resolved to (1) the impl of that trait for the concrete Self type found
+        in the facts, (2) the provided body of the trait itself, or (3) the spelled-out concrete path `<S as Trait<..>>::m`
+        for the library models.  Returns extra candidates [(path, generic args)] or None."""
+        if cal.get('resolved') or not fr.genv:
+            return None
+        args = cal.get('args') or []
+        if not args or 'ty' not in args[0]:
+            return None
+
+        def has_param(ty):
+            if not isinstance(ty, dict):
+                return False
+            if ty.get('k') == 'param':
+                return True
+            return any(has_param(a.get('ty')) for a in ty.get('args', []) if isinstance(a, dict)) or has_param(ty.get('ty'))
+        if not any(has_param(a.get('ty')) for a in args if isinstance(a, dict)):
+            return None
+        sargs = [self.subst_arg(a, fr.genv) for a in args]
+        self_ty = sargs[0].get('ty') if isinstance(sargs[0], dict) else None
+        if not isinstance(self_ty, dict) or has_param(self_ty):
+            return None
+        d = cal['def']
+        trait, _, meth = d.rpartition('::')
+        out = []
+        sname = self_ty.get('s') or self_ty.get('n') or ''
+        for pth, f in self.facts.fns.items():
+            io = f.get('impl_of') or {}
+            if io.get('trait') == trait and pth.rsplit('::', 1)[-1] == meth:
+                st_ = io.get('self_ty') or {}
+                if (st_.get('s') or st_.get('n')) == sname:
+                    out.append((pth, sargs[1:] if len(f.get('generics') or []) < len(sargs) else sargs))
+        if not out and d in self.facts.fns:
+            out.append((d, sargs))       # provided method of the trait, Self bound through the generic arguments
+        rest = ', '.join((a.get('ty') or {}).get('s') or (a.get('ty') or {}).get('n') or '?' for a in sargs[1:] if isinstance(a, dict) and 'ty' in a)
+        out.append(('<%s as %s%s>::%s' % (sname, trait, ('<%s>' % rest) if rest else '', meth), sargs))
+        return out
+
     def site_ordinal(self, fr, bb):
         """ordinal of this assert/call among the asserts+calls of the function (stable key without line numbers)"""
         n = 0
@@ -1914,6 +1954,9 @@ class Interp:
             if sf is not None:
                 out = sf(self, st, fr, t, args)
                 return self.finish_model(st, fr, t, out)
+        late = self.late_trait_resolution(fr, cal)
+        if late is not None:
+            cands = late + cands
         for path, ga in cands:
             if path in self.facts.fns and path not in self.no_inline:
                 target, gargs = path, ga
